@@ -1,0 +1,17 @@
+//go:build verif
+// +build verif
+
+// Verification hook for property C14 (store lifecycle). Exports only; compiled only with -tags verif.
+package cluster
+
+import "time"
+
+// VerifC14CheckStores runs one round of the background store check (checkStores).
+func (c *RaftCluster) VerifC14CheckStores() { c.checkStores() }
+
+// VerifC14BuryStore calls buryStore directly (in production its only caller is checkStores).
+func (c *RaftCluster) VerifC14BuryStore(storeID uint64) error { return c.buryStore(storeID) }
+
+// VerifC14BackgroundJobInterval exposes the package variable that paces runBackgroundJobs, so that a
+// harness can keep the ticker from firing checkStores on its own between two observed steps.
+func VerifC14BackgroundJobInterval() *time.Duration { return &backgroundJobInterval }
